@@ -55,6 +55,98 @@ def fmt_templates(P, key):
     return res
 
 
+def write_sites(P, key):
+    """-> ([(bb, text before the first argument, text after the last argument, shown)], [(bb, helper key)]) for a printer body"""
+    b = P.body[key]
+    sites = []
+    helpers = []
+    for bb, t, name, tg in P.call_sites(key):
+        full, rp = MU.callee_names(t)
+        if rp.startswith("std::fmt::Arguments::<'a>::new") or rp.startswith("std::fmt::Arguments::<'a>::from_str"):
+            locs, consts, calls, places = MU.backward_slice(b, t["args"][:1])
+            tplb = [c["bytes"] for c in consts if "bytes" in c]
+            strs = [c["str"] for c in consts if "str" in c]
+            tpl = decode_template(tplb[0]) if tplb else ([('lit', strs[0])] if strs else None)
+            if tpl is None:
+                sites.append((bb, None, None, "<unreadable>"))
+                continue
+            fa = next((i for i, x in enumerate(tpl) if x[0] == 'arg'), None)
+            la = max((i for i, x in enumerate(tpl) if x[0] == 'arg'), default=None)
+            lits = "".join(x[1] for x in tpl if x[0] == 'lit')
+            before = "".join(x[1] for x in tpl[:fa] if x[0] == 'lit') if fa is not None else lits
+            after = "".join(x[1] for x in tpl[la + 1:] if x[0] == 'lit') if la is not None else lits
+            sites.append((bb, before, after, '"%s"' % "".join(x[1] if x[0] == 'lit' else "{}" for x in tpl)))
+        elif rp == "std::fmt::Formatter::<'a>::write_str":
+            lit = [a["const"]["str"] for a in t["args"] if "const" in a and "str" in a["const"]]
+            sites.append((bb, lit[0], lit[0], '"%s"' % lit[0]) if lit else (bb, None, None, "<unreadable>"))
+        else:
+            for x in tg:
+                if x in P.body and not x.startswith("fmt:") and " as std::fmt::" not in x and x != key and not x.startswith("std::") and "Arguments" not in rp and "Argument" not in rp:
+                    real = P.norm_path(key, t["callee"].get("rpath"))
+                    if real == x:
+                        helpers.append((bb, x))
+    return sites, helpers
+
+
+def flatten_sites(P, key, ty):
+    """calls, in the printer or the helpers it uses, that print a *nested* value of type `ty` (taken out of an Expr) with a helper or the
+    printer body itself instead of through Display -> [(function, 'left'|'right'|'?')]"""
+    adt = P.lib.adts[ty]
+    fnames = [f["name"] for f in adt["variants"][0]["fields"]]
+    seen = {key}
+    work = [key]
+    fam = []
+    while work:
+        k = work.pop()
+        fam.append(k)
+        for bb, h in write_sites(P, k)[1]:
+            if h not in seen:
+                seen.add(h)
+                work.append(h)
+    out = []
+
+    def origin_of(k, op, depth=0):
+        """which field of the enclosing value an operand expression comes from"""
+        b = P.body[k]
+        ch = MU.Chaser(b, transparent={"<std::boxed::Box<T, A> as std::ops::Deref>::deref", "<std::boxed::Box<T, A> as std::convert::AsRef<T>>::as_ref"})
+        r = ch.root(op)
+        if r[0] is None:
+            return "?"
+        flds = [e for e in r[1] if e["k"] == "field"]
+        lt = P.tys(k, b["locals"][r[0]]["ty"])
+        if ty in lt and flds:
+            nm = fnames[flds[0]["i"]] if flds[0]["i"] < len(fnames) else "?"
+            return nm if nm in ("left", "right") else "?"
+        if 1 <= r[0] <= b["arg_count"] and depth < 3:
+            # a parameter: look at what the family's call sites pass
+            res = set()
+            for k2 in fam:
+                for bb, t, name, tg in P.call_sites(k2):
+                    if k in tg and P.norm_path(k2, t["callee"].get("rpath")) == k and len(t["args"]) >= r[0]:
+                        res.add(origin_of(k2, t["args"][r[0] - 1], depth + 1))
+            if len(res) == 1:
+                return res.pop()
+            return "right" if "right" in res else "?"
+        return "?"
+
+    for k in fam:
+        b = P.body[k]
+        ch = MU.Chaser(b, transparent={"<std::boxed::Box<T, A> as std::ops::Deref>::deref", "<std::boxed::Box<T, A> as std::convert::AsRef<T>>::as_ref"})
+        for bb, t, name, tg in P.call_sites(k):
+            real = P.norm_path(k, t["callee"].get("rpath"))
+            if real not in fam or not t["args"]:
+                continue
+            r = ch.root(t["args"][0])
+            dcs = [e for e in r[1] if e["k"] == "downcast"]
+            if not dcs:
+                continue             # the receiver is the value being printed itself, not one taken out of an operand
+            # the Expr that was taken apart: the chased place up to the downcast
+            idx = r[1].index(dcs[0])
+            inner = {"local": r[0], "proj": r[1][:idx]}
+            out.append((k, origin_of(k, inner)))
+    return out
+
+
 def run(tier):
     rep = Reporter("C09", tier, "other", "lower-case typestate on macro-table keys; syntactic re-parse-safety of the operand printers (format templates read from MIR); def-use of the splice loop; path rules on macro_expand")
     rep.explanation = ("Macro expansion re-renders each parsed argument to text and re-parses the body, so it can only be faithful if (1) definition "
@@ -101,31 +193,40 @@ def run(tier):
             rep.unprovable("C09.print|%s" % ty, "printer of %s not found among the Display impls reachable from InstructionOps" % ty)
             continue
         b = P.body[key]
-        tpls = fmt_templates(P, key)
-        switches = [bl for bl in b["blocks"] if bl["term"]["k"] == "switch" and not bl["cleanup"]]
-        # a switch on a discriminant read = precedence-aware printing: silent by design
+        sites, helpers = write_sites(P, key)
+        # a switch on the discriminant of an expression value (not of a `?` result) = precedence-aware printing
         aware = False
         for bl in b["blocks"]:
             for st in bl["stmts"]:
                 if st["k"] == "assign" and st["rv"]["k"] == "discr":
-                    aware = True
+                    tys = P.tys(key, b["locals"][st["rv"]["place"]["local"]]["ty"])
+                    if not re.search(r"ControlFlow<|^std::result::Result<", tys):
+                        aware = True
+        if any(sx_ is None for sx_ in [s_[1] for s_ in sites]):
+            rep.unprovable("C09.print|%s" % ty, "a format template of the %s printer is not readable" % ty)
+            continue
+        idom = G.dominators(b)
+        allbb = [s_[0] for s_ in sites] + [h[0] for h in helpers]
+        first = [s_ for s_ in sites if "(" in s_[1] and all(G.dominates(idom, s_[0], x) for x in allbb)]
+        last = [s_ for s_ in sites if ")" in s_[2] and all(G.dominates(idom, x, s_[0]) for x in allbb)]
+        shown = " ".join(s_[3] for s_ in sites) + ("".join(" + %s()" % h[1].split("::")[-1] for h in helpers))
         if aware:
-            rep.ob("C09.print|%s" % ty, True, "printer of %s branches on a discriminant (precedence-aware): not judged" % ty, nontrivial=False)
-            continue
-        if len(tpls) != 1 or tpls[0][0] is None:
-            rep.unprovable("C09.print|%s" % ty, "format template of the %s printer not readable" % ty)
-            continue
-        tpl = tpls[0][0]
-        first_arg = next((i for i, x in enumerate(tpl) if x[0] == 'arg'), None)
-        last_arg = max((i for i, x in enumerate(tpl) if x[0] == 'arg'), default=None)
-        before = "".join(x[1] for x in tpl[:first_arg] if x[0] == 'lit') if first_arg is not None else ""
-        after = "".join(x[1] for x in tpl[last_arg + 1:] if x[0] == 'lit') if last_arg is not None else ""
-        ok = "(" in before and ")" in after
-        shown = "".join(x[1] if x[0] == 'lit' else "{}" for x in tpl)
-        rep.ob("C09.print|%s" % ty, ok,
-               "%s is printed as \"%s\": its grouping survives textual substitution and re-parsing" % (ty.split("::")[-1], shown) if ok else
-               "%s is printed as \"%s\" without parentheses and without looking at operator precedence: `m 1+2` with body `@0*2` re-parses as 1+2*2" % (ty.split("::")[-1], shown),
-               loc=loc_of(b["span"]), detail={"template": shown})
+            rep.ob("C09.print|%s" % ty, True, "printer of %s branches on the shape of an operand (precedence-aware): its parentheses are not judged" % ty, nontrivial=False)
+        else:
+            ok = bool(first) and bool(last)
+            rep.ob("C09.print|%s" % ty, ok,
+                   "%s is printed inside parentheses (%s): its grouping survives textual substitution and re-parsing" % (ty.split("::")[-1], shown) if ok else
+                   "%s is printed as %s without enclosing parentheses and without looking at operator precedence: `m 1+2` with body `@0*2` re-parses as 1+2*2" % (ty.split("::")[-1], shown),
+                   loc=loc_of(b["span"]), detail={"writes": shown})
+        # flattening: a nested expression of the same type printed by a helper instead of its own Display loses its parentheses; that is
+        # harmless only for the left operand (all binary operators group to the left)
+        if ty == "expr::BinaryExpr":
+            fl = flatten_sites(P, key, ty)
+            bad = [x for x in fl if x[1] != "left"]
+            rep.ob("C09.print|%s|nested" % ty, not bad,
+                   "nested binary expressions are printed through their own Display (with their parentheses)%s" % (" or flattened on the left side only" if fl else "") if not bad else
+                   "%s prints a nested binary expression taken from the %s operand without its parentheses: `m 10-(3-1)` re-parses as 10-3-1" % (bad[0][0].split("::")[-1], "right" if bad[0][1] == "right" else "left or right"),
+                   detail={"sites": fl})
     # Func / IndexOps / Expr printers emit the grammar's concrete syntax
     want = {"expr::Expr": {"{}({})", "{}"}, "instruction::IndexOps": {"{}", "{}+", "-{}", "{}+{}"}, "instruction::InstructionOps": {"{}"}}
     for ty, shapes in want.items():
